@@ -81,11 +81,11 @@ func (v *VM) exec() {
 		case codeIncDec:
 			i := &codes[v.frame.N]
 			a := v.stack[len(v.stack)-1]
-			v.stack[len(v.stack)-1] = a.opAdd(Int(int(i.A)))
+			v.stack[len(v.stack)-1] = a.incDec(int(i.A))
 
 		case codeLocalIncDec:
 			i := &codes[v.frame.N]
-			v.stack[baseN+int(i.A)] = v.stack[baseN+int(i.A)].opAdd(Int(int(i.B)))
+			v.stack[baseN+int(i.A)] = v.stack[baseN+int(i.A)].incDec(int(i.B))
 
 		case codeConvert:
 			i := &codes[v.frame.N]
